@@ -33,6 +33,10 @@ def c09_networks():
     yield N("two-spellings", [(["H", "e-"], ["H+", "E", "e-"]), (["H+", "E"], ["H"])])
     yield N("uppercase-replacement", [(["HE", "H+"], ["HE+", "H"]), (["MG", "H+"], ["MG+", "H"]), (["HE+", "E-"], ["HE"])],
             elements=["H", "HE", "MG", "E"], pseudo_elements=[])
+    # upper-case symbols where a charge suffix letter next to a one-letter symbol spells a two-letter symbol of the list (S+ / SI, N+ / NI)
+    yield N("uppercase-suffix-neighbours", [(["S+", "E-"], ["S"]), (["SI+", "E-"], ["SI"]), (["N+", "E-"], ["N"]), (["NI", "H+"], ["NI+", "H"]), (["S", "H+"], ["S+", "H"]),
+                                            (["SI", "N+"], ["SI+", "N"]), (["#S"], ["S"])],
+            elements=["H", "C", "N", "O", "S", "SI", "NI", "E"], pseudo_elements=[])
 
 
 def oracle_c09(tier, seed):
@@ -162,6 +166,39 @@ def oracle_c09(tier, seed):
                              "signature": "C09:enzo-hydrocarbons:patch-field-constant"})
     except Exception as e:
         viol.append({"property": "C09", "network": "enzo-hydrocarbons", "what": f"enzo-patch-raises: {type(e).__name__}: {e}", "signature": "C09:enzo-hydrocarbons:raises"})
+    # ---- the species count of the simulation-code patch agrees with the species fields its own sources hand over (with and without
+    #      an electron / ions / ice in the network)
+    try:
+        from naunet.patches import patch_factory, EnzoPatch
+        from naunet.network import Network as _Net3
+        from .native_ode import strip_comments
+        for lab3, rs3 in [("neutral", [(["C", "O"], ["CO"]), (["CO", "H"], ["HCO"])]), ("ionised", [(["C+", "e-"], ["C"]), (["CO", "H+"], ["HCO+"])]),
+                          ("ice-only", [(["#CO"], ["CO"]), (["H", "H"], ["H2"])])]:
+            fresh_species_state()
+            net = _Net3([mk_reaction(a, b) for a, b in rs3])
+            d = tempfile.mkdtemp(prefix="vf_enzo3_")
+            try:
+                with contextlib.redirect_stdout(io.StringIO()):
+                    patch_factory("enzo", "cpu").render(net, path=Path(d))
+                hdr = open(os.path.join(d, "naunet_enzo.h"), errors="replace").read()
+                ptr = {f: strip_comments(open(os.path.join(d, "hydro_rk", f), errors="replace").read()) for f in ("Grid_ReturnHydroRKPointers.C", "Grid_ReturnOldHydroRKPointers.C")}
+            finally:
+                shutil.rmtree(d, ignore_errors=True)
+            cases += 1
+            m3 = re.search(r"#define ENZO_NSPECIES\s+(\d+)", hdr)
+            nsp = int(m3.group(1)) if m3 else None
+            names3 = {("e-" if s.is_electron else s.name) for s in net.species} | {("e-" if n in ("e-", "E", "de", "De") else n) for n in EnzoPatch.grackle_species_name}
+            want3 = len(names3 - {"e-"})
+            if nsp != want3:
+                viol.append({"property": "C09", "network": f"enzo-{lab3}", "what": f"patch-species-count: ENZO_NSPECIES is {nsp}, the network and the code base's own species make {want3} fields besides the electron",
+                             "signature": f"C09:enzo-{lab3}:patch-species-count"})
+            for f, t in ptr.items():
+                pushes = [x for x in re.findall(r"Prim\[nfield\+\+\]\s*=\s*\w+\[(\w+)\]", t) if x not in ("MetalNum", "MetalIaNum", "MetalIINum", "SNColourNum")]
+                if nsp != len(pushes):
+                    viol.append({"property": "C09", "network": f"enzo-{lab3}", "what": f"patch-species-count: ENZO_NSPECIES is {nsp} but {f} hands over {len(pushes)} species fields",
+                                 "signature": f"C09:enzo-{lab3}:patch-species-count"})
+    except Exception as e:
+        viol.append({"property": "C09", "network": "enzo-counts", "what": f"enzo-patch-raises: {type(e).__name__}: {e}", "signature": "C09:enzo-counts:raises"})
     # ---- every slot identifier used by a generated rate statement is one the macros define (format-specific rate builders name
     #      the gas-phase partner of an ice species, shielding tables, ...)
     try:
@@ -231,6 +268,35 @@ def c09_template_items(tier):
         items.append(T.item("tmpl/enzo/A_Table-follows-network.species", okA and okT, ""))
     except Exception as e:
         items.append(T.item("tmpl/enzo/A_Table-follows-network.species", False, str(e), status="unknown"))
+    # ENZO_NSPECIES: number of species fields besides the electron = |network U grackle| - 1 (the code base's own list always holds the
+    # electron), written with the three list lengths n = |network|, g = |grackle|, i = |network ^ grackle|; any other list length that
+    # the expression mentions is an unknown count
+    try:
+        import z3
+        from jinja2 import nodes as jn
+        from pyvc import smt
+        site = [s_ for s_ in ps if "#define ENZO_NSPECIES " in joined(s_)]
+        if len(site) != 1 or not site[0].exprs:
+            items.append(T.item("tmpl/enzo/ENZO_NSPECIES-counts-union-minus-electron", False, f"{len(site)} definition sites", status="unknown"))
+        else:
+            lit_parts = site[0].parts
+            k = next(ix for ix, p_ in enumerate(lit_parts) if isinstance(p_, str) and "#define ENZO_NSPECIES " in p_)
+            expr = lit_parts[k + 1]
+            n, g, i = z3.Int("n_network"), z3.Int("n_grackle"), z3.Int("n_both")
+            names = {"species.network|length": n, "species.grackle|length": g, "species.network_int_grackle|length": i}
+            hyp = [n >= 0, g >= 1, i >= 0, i <= n, i <= g]
+            for sub in expr.find_all(jn.Filter):
+                if sub.name == "length" and T.etext(sub) not in names:
+                    v = z3.Int("len_" + re.sub(r"\W+", "_", T.etext(sub))[:40])
+                    names[T.etext(sub)] = v
+                    hyp += [v >= 0, v <= n + g]
+            ar = T.Arith({}, names)
+            val = ar.ev(expr)
+            st, be, secs, model = smt.check_valid(hyp + ar.constraints, val == n + g - i - 1, timeout_ms=10000)
+            items.append(T.item("tmpl/enzo/ENZO_NSPECIES-counts-union-minus-electron", st == "proved", f"{T.etext(expr)}" + (f"; countermodel {model}" if model is not None else ""),
+                                backend=f"template-ast+{be}", status=st))
+    except Exception as e:
+        items.append(T.item("tmpl/enzo/ENZO_NSPECIES-counts-union-minus-electron", False, f"{type(e).__name__}: {e}", status="unknown"))
     items += [i for i in T.macros_template_items(tier) if "IDX" in i["name"] or "NSPECIES" in i["name"] or "NELEMENTS" in i["name"]]
     return items
 
@@ -277,7 +343,8 @@ def oracle_c08(tier, seed):
             labels = ["", "o", "p"] if pseudo else [""]
         elif cname != "promoted-labels":
             symbols = [e for e in Species.default_elements if e not in ("e", "E")]
-            labels = ["", "o", "p", "m"]
+            labels = ["", "c-", "o", "p", "m", "l-"]       # the cyclic / linear labels contain a hyphen that is not a charge
+        recheck = []
         maxsym = 2 if tier == "quick" else 3
         counts = [None, 2, 10] if tier == "quick" else [None, 2, 10, 12]
         compos = []
@@ -288,7 +355,7 @@ def oracle_c08(tier, seed):
             compos = [c for c in compos if len(c) == 1] + rnd.sample([c for c in compos if len(c) == 2], 200)
         for syms in compos:
             for cnts in ([tuple(rnd.choice(counts) for _ in syms)] if len(syms) > 1 else [(c,) for c in counts]):
-                for label in labels[:2] if tier == "quick" else labels:
+                for label in labels[:3] if tier == "quick" else labels:
                     for surface in (False, True):
                         for charge in (0, 1, -1, 2):
                             if label and surface:
@@ -302,6 +369,8 @@ def oracle_c08(tier, seed):
                                 s2 = repl.get(s, s)
                                 want[s2] = want.get(s2, 0) + (c or 1)
                             cases += 1
+                            if len(recheck) < 400 and cases % 7 == 0:
+                                recheck.append((name, dict(want), charge, surface))
 
                             def V(what):
                                 viol.append({"property": "C08", "config": cname, "name": name, "what": what,
@@ -346,6 +415,43 @@ def oracle_c08(tier, seed):
                     viol.append({"property": "C08", "config": cname, "name": name,
                                  "what": f"grain-bookkeeping: {name}: group {sp.grain_group} count {dict(sp.element_count)} charge {sp.charge} is_atom {sp.is_atom}",
                                  "signature": f"C08:{cname}:grain-bookkeeping"})
+        # history: a network with these tables is built and a simulation-code patch is rendered for it; the configured tables are
+        # still in force afterwards (names read the same, foreign characters are still rejected)
+        if cname in ("uppercase-#", "uppercase-no-labels", "default") or cname.startswith("uppercase"):
+            try:
+                from naunet.network import Network as _Net8
+                from naunet.patches import patch_factory as _pf8
+                from .native_ode import mk_reaction as _mk8
+                tabs = (list(Species.known_elements()), list(Species.known_pseudoelements()), dict(Species._replacement))
+                he = "HE" if "HE" in symbols else "He"
+                net8 = _Net8([_mk8(["H", "H"], ["H2"]), _mk8([he + "+", "H"], [he, "H+"]), _mk8(["C", "O"], ["CO"])],
+                             **({"elements": list(elements), "pseudo_elements": list(pseudo)} if elements is not None else {}))
+                d8 = tempfile.mkdtemp(prefix="vf_c08_")
+                try:
+                    with contextlib.redirect_stdout(io.StringIO()):
+                        _pf8("enzo", "cpu").render(net8, path=Path(d8))
+                finally:
+                    shutil.rmtree(d8, ignore_errors=True)
+                after = (list(Species.known_elements()), list(Species.known_pseudoelements()), dict(Species._replacement))
+                cases += 1
+                if after != tabs:
+                    viol.append({"property": "C08", "config": cname, "name": "", "what": f"tables-after-patch-render: element tables {after[0][:8]}.../{after[1][:5]} differ from the configured {tabs[0][:8]}.../{tabs[1][:5]}",
+                                 "signature": f"C08:{cname}:tables-after-patch-render"})
+                for name, want, charge, surface in recheck:
+                    cases += 1
+                    try:
+                        sp = Species(name, **kw)
+                        got = {k: v for k, v in sp.element_count.items()}
+                        if got != want or sp.charge != charge or sp.is_surface != surface:
+                            viol.append({"property": "C08", "config": cname, "name": name, "what": f"after-patch-render: {name}: parsed {got} charge {sp.charge}, composed from {want} charge {charge}",
+                                         "signature": f"C08:{cname}:after-patch-render"})
+                            break
+                    except Exception as e:
+                        viol.append({"property": "C08", "config": cname, "name": name, "what": f"after-patch-render: rejected-valid-name: {name}: {type(e).__name__}: {e}",
+                                     "signature": f"C08:{cname}:after-patch-render"})
+                        break
+            except Exception as e:
+                viol.append({"property": "C08", "config": cname, "name": "", "what": f"patch-history-raises: {type(e).__name__}: {e}", "signature": f"C08:{cname}:patch-history-raises"})
         # names with a foreign character must be rejected
         for bad in ["H2Q", "C?O", "xH2", "H2O!", "C.O", "H 2", "H2 O", "C1_2", "C+2H", "H2\tO", "C 12", "O_2"] + (["Mg", "oH2", "pH3+", "HgO", "H2M", "CXO"] if (elements is not None and not pseudo) else []):
             cases += 1
